@@ -193,6 +193,7 @@ type Result struct {
 	By      string // bystander connection: ok | bad:<what> | "" (none)
 	Tap     string // TLS cases: verdict on the raw bytes the server put on the wire
 	HS      string // TLS cases: ok | fail | - (no handshake attempted)
+	Solo    string // multi-connection cases: ok | diff:<i> (connection i differs from its solo run)
 }
 
 var discardLogger = slog.New(slog.NewTextHandler(io.Discard, nil))
@@ -292,7 +293,7 @@ func bystander(c *Case, l *Listener) string {
 	b := NewConn(segments(in, nil), false, -1)
 	b.name = "bystander"
 	l.ch <- b
-	closed, ok := b.WaitQuiescent(20 * time.Second)
+	closed, ok := b.WaitQuiescent(hangTimeout())
 	defer b.Hangup()
 	if !ok {
 		return "bad:hang"
@@ -313,6 +314,19 @@ func bystander(c *Case, l *Listener) string {
 		return "bad:" + t
 	}
 	return "ok"
+}
+
+// hangTimeout is how long a connection may stay neither blocked in a read nor closed before the
+// case is declared a hang. Cases take milliseconds; the bound is generous. Once two hangs have been
+// seen in this process the verdict is settled and later cases get a short bound, so that a change
+// which wedges many connections does not make the check run for hours.
+var hangsSeen int
+
+func hangTimeout() time.Duration {
+	if hangsSeen >= 2 {
+		return 1 * time.Second
+	}
+	return 10 * time.Second
 }
 
 // RunCase drives the real server with one case over the in-memory transport.
@@ -347,7 +361,7 @@ func RunCase(c *Case) *Result {
 		runtime.ReadMemStats(&m0)
 	}
 	l.ch <- conn
-	closed, ok := conn.WaitQuiescent(20 * time.Second)
+	closed, ok := conn.WaitQuiescent(hangTimeout())
 	if c.Extra["alloc"] == "1" {
 		var m1 runtime.MemStats
 		runtime.ReadMemStats(&m1)
@@ -356,6 +370,7 @@ func RunCase(c *Case) *Result {
 	switch {
 	case !ok:
 		r.End = "hang"
+		hangsSeen++
 	case closed:
 		r.End = "c"
 	default:
@@ -372,7 +387,7 @@ func RunCase(c *Case) *Result {
 	}
 	// let the connection goroutine finish, then shut the server down
 	conn.Hangup()
-	deadline := time.Now().Add(20 * time.Second)
+	deadline := time.Now().Add(hangTimeout())
 	for {
 		conn.mu.Lock()
 		cl := conn.closed
@@ -386,6 +401,8 @@ func RunCase(c *Case) *Result {
 	r.Fin = "0"
 	if conn.closed {
 		r.Fin = "1"
+	} else {
+		hangsSeen++
 	}
 	conn.mu.Unlock()
 	srv.Close()
@@ -466,7 +483,7 @@ func (r *Result) Line() string {
 		}
 	}
 	if r.MultiOut != "" || r.MultiEv != "" {
-		return fmt.Sprintf("out=%s ev=%s end=%s at= dn= retain=%s closes=0 umap=%s", r.MultiOut, r.MultiEv, r.End, r.Retain, r.UserMap)
+		return fmt.Sprintf("out=%s ev=%s end=%s at= dn= retain=%s closes=0 umap=%s solo=%s", r.MultiOut, r.MultiEv, r.End, r.Retain, r.UserMap, r.Solo)
 	}
 	extra := ""
 	if r.Alloc >= 0 {
